@@ -61,8 +61,8 @@ MinHops(n, D, WT, s, t) ==
 (* the same questions in about n x (number of connections) steps; mc cross-checks  *)
 (* each of them against the definitions above on every small input                 *)
 (* (DistanceImpl!FastOracleInv).  No bound on n; lengths and path totals < INF/2.  *)
-OutNb(n, Lm) == EVec(n, LAMBDA i : {j \in 1..n : Lm[i][j] < INF})
-InNb(n, Lm)  == EVec(n, LAMBDA j : {k \in 1..n : Lm[k][j] < INF})
+DOutNb(n, Lm) == EVec(n, LAMBDA i : {j \in 1..n : Lm[i][j] < INF})
+DInNb(n, Lm)  == EVec(n, LAMBDA j : {k \in 1..n : Lm[k][j] < INF})
 IsHopLen(n, Lm) == \A i, j \in 1..n : Lm[i][j] = 1 \/ Lm[i][j] = INF   \* every connection has length 1
 PosLen(n, Lm) == \A i, j \in 1..n : Lm[i][j] >= 1                       \* no zero-length connection
 
@@ -80,7 +80,7 @@ HopRowFast(n, Out, s) ==
   LET Lv == BfsLevels(Out, s) IN
   FoldLeft(LAMBDA acc, d : FoldSet(LAMBDA j, a : [a EXCEPT ![j] = d - 1], acc, Lv[d]),
            EVec(n, LAMBDA j : INF), [d \in 1..Len(Lv) |-> d])
-HopDistFast(n, Lm) == LET Out == OutNb(n, Lm) IN EVec(n, LAMBDA s : HopRowFast(n, Out, s))
+HopDistFast(n, Lm) == LET Out == DOutNb(n, Lm) IN EVec(n, LAMBDA s : HopRowFast(n, Out, s))
 
 (* ONE relaxation pass decides whether `row` is the vector of distances from s,    *)
 (* provided every length is >= 1 (PosLen):  row[s] = 0 and, for j # s,             *)
@@ -88,13 +88,13 @@ HopDistFast(n, Lm) == LET Out == OutNb(n, Lm) IN EVec(n, LAMBDA s : HopRowFast(n
 (* none).  This equation has exactly one solution in Nat \cup {INF}: a solution is *)
 (* <= Dist (induction along a minimum path) and >= Dist (every finite entry is     *)
 (* supported by a strictly smaller one, hence - descending to s - by a real walk   *)
-(* of that total length).  In = InNb(n, Lm).                                       *)
+(* of that total length).  In = DInNb(n, Lm).                                       *)
 IsDistRow(n, Lm, In, s, row) ==
   /\ row[s] = 0
   /\ \A j \in (1..n) \ {s} :
        /\ row[j] >= 0 /\ row[j] <= INF
        /\ row[j] = MinOf({INF} \cup {Plus(row[k], Lm[k][j]) : k \in In[j]})
-IsDistMat(n, Lm, D) == LET In == InNb(n, Lm) IN \A s \in 1..n : IsDistRow(n, Lm, In, s, D[s])
+IsDistMat(n, Lm, D) == LET In == DInNb(n, Lm) IN \A s \in 1..n : IsDistRow(n, Lm, In, s, D[s])
 
 (* edge counts of the minimum-length walks from s to every node (PosLen; row = the *)
 (* distances from s): nodes in the order of increasing distance, the counts of j   *)
